@@ -524,8 +524,11 @@ pub fn run(tier: &str, seed: u64) -> Report {
     // (manifest bytes differ between the renderings, so checksums of manifests are left out here)
     base.has_locker = false;
     base.lock_manifests.clear();
-    // one source text for all three renderings: the older pragma, which every format can describe
-    for p in base.pkgs.iter_mut() {
+    // one source text for all renderings: the older pragma, which every format can describe - or, every
+    // third world, the newer one, which only the newer format can (the older format is left out then,
+    // but a manifest that carries both forms must still be read through the newer one)
+    let keep_ts_types = i % 3 == 1;
+    for p in base.pkgs.iter_mut().filter(|_| !keep_ts_types) {
       for v in p.versions.iter_mut() {
         for f in v.files.iter_mut() {
           for it in f.items.iter_mut() {
@@ -537,7 +540,8 @@ pub fn run(tier: &str, seed: u64) -> Report {
       }
     }
     let mut reference: Option<(String, String)> = None;
-    for mg in [MgKind::None, MgKind::V2, MgKind::V1] {
+    let renderings: &[MgKind] = if keep_ts_types { &[MgKind::None, MgKind::V2, MgKind::Both] } else { &[MgKind::None, MgKind::V2, MgKind::V1, MgKind::Both] };
+    for mg in renderings.iter().copied() {
       for cache in ["as-generated", "cold", "warm"] {
         let mut w = base.clone();
         for p in w.pkgs.iter_mut() {
